@@ -290,4 +290,27 @@ def Wire.gen (w : Wire) : Nat :=
   | none => 0
   | some s => s.gen
 
+/-! ### source shape the transcription relies on (re-read from /repo by tools/extractors/dc_keyphase.py and
+   compared in QuicProofs/Bridge/DcKeyPhase.lean): the recognised statements of each function in source order.
+   `aead?` / `dedup?` = the call is followed by the `?` operator (early return on error). -/
+
+/-- `open::Application::decrypt` and `decrypt_in_place` (`Opener.decrypt`, `Opener.decryptInPlace`): slot selection,
+    AEAD open, dedup, and only then the phase comparison and `needs_update.store(true)` -/
+def pinnedDecryptOrder : List String := ["select", "aead?", "dedup?", "guard", "flag", "ok"]
+
+/-- `KeyPhase::Zero => &self.openers[0], KeyPhase::One => &self.openers[1]` (`Opener.slot`) -/
+def pinnedSlots : List Nat := [0, 1]
+
+/-- `open::Application::update` (`Opener.update`) -/
+def pinnedUpdateOrder : List String := ["idx=phase", "next", "slot[idx]", "ku", "flip", "clear"]
+
+/-- `open::Once::{decrypt, decrypt_in_place}` (`OnceOpener.decrypt`) -/
+def pinnedOnceOrder : List String := ["phase-zero", "aead?", "dedup?", "single-use", "ok"]
+
+/-- `seal::Application::update` (`Sealer.update`) -/
+def pinnedSealUpdateOrder : List String := ["next", "sealer", "ku", "records=0", "flip"]
+
+/-- `Crypto::{open_with, seal_with}` (`openWithTail`, `sealWithTail`) -/
+def pinnedWithOrder : List String := ["lock", "closure", "if-needs-update", "update", "result"]
+
 end Quic.Dc.KeyPhase
